@@ -154,6 +154,13 @@ Theorem C13_probe_accept_schedule : forall c interval tg o,
   is_prefix (begins (bo_events o)) (map fst tg) = true.
 Proof. exact probe_accept_schedule. Qed.
 
+(* for EVERY tie-breaking oracle the probe-plan model returns (no stuck state, enough fuel) and
+   what it returns is accepted *)
+Theorem C13_probe_accept_complete : forall c interval tg oracle,
+  exists o, btimed_run (bfuel c tg) oracle interval tg (btinit c interval tg) = Some o /\
+            baccept_guided c interval tg o = true.
+Proof. exact probe_accept_complete. Qed.
+
 (* non-vacuity: concrete schedules *)
 Definition ex_ign : rres := Err (LastAttemptError UnableToAllocStreamId).
 Definition ex_def : rres := Err (LastAttemptError (DbError Invalid)).
@@ -239,3 +246,4 @@ Print Assumptions C13_exhausted_sound.
 Print Assumptions C13_probe_guided.
 Print Assumptions C13_probe_accept_sound.
 Print Assumptions C13_probe_accept_schedule.
+Print Assumptions C13_probe_accept_complete.
